@@ -18,8 +18,11 @@ BUILD = os.path.join(VERIF, "_build")
 COQ = os.path.join(VERIF, "coq")
 GEN = os.path.join(COQ, "gen")
 HARNESS_DIR = os.path.join(VERIF, "harness")
-TARGET = os.path.join(BUILD, "target")
-CLI_TARGET = os.path.join(BUILD, "cli")
+# cargo decides freshness of path packages by source mtimes under one target dir, so a scratch
+# tree (VERIF_REPO) must never share build directories with /repo
+_SFX = "" if REPO == "/repo" else "-" + hashlib.sha1(REPO.encode()).hexdigest()[:8]
+TARGET = os.path.join(BUILD, "target" + _SFX)
+CLI_TARGET = os.path.join(BUILD, "cli" + _SFX)
 NCPU = os.cpu_count() or 4
 
 ENV = dict(os.environ)
